@@ -2155,11 +2155,11 @@ impl<'a> Parser<'a> {
 
 // https://spec.graphql.org/June2018/#sec-String-Value
 fn clean_block_string_literal(source: &str) -> String {
-    let inner = &source[3..source.len() - 3];
+    // \""" is the only escape sequence in a block string
+    let inner = &source[3..source.len() - 3].replace("\\\"\"\"", "\"\"\"");
     let common_indent = get_common_indent(inner);
 
-    let mut formatted_lines = inner
-        .lines()
+    let mut formatted_lines = lines(inner)
         .enumerate()
         .map(|(i, line)| {
             if i == 0 {
@@ -2188,7 +2188,7 @@ fn clean_block_string_literal(source: &str) -> String {
 }
 
 fn get_common_indent(source: &str) -> usize {
-    let lines = source.lines().skip(1);
+    let lines = lines(source).skip(1);
     let mut common_indent: Option<usize> = None;
     for line in lines {
         if let Some((first_index, _)) = line.match_indices(is_not_whitespace).next() {
@@ -2198,6 +2198,30 @@ fn get_common_indent(source: &str) -> usize {
         }
     }
     common_indent.unwrap_or(0)
+}
+
+// https://spec.graphql.org/June2018/#LineTerminator
+// Unlike str::lines, a carriage return that is not followed by a new line also ends a line.
+fn lines(source: &str) -> impl Iterator<Item = &str> {
+    let mut rest = Some(source);
+    std::iter::from_fn(move || {
+        let current = rest?;
+        match current.find(['\n', '\r']) {
+            Some(index) => {
+                let terminator_len = if current[index..].starts_with("\r\n") {
+                    2
+                } else {
+                    1
+                };
+                rest = Some(&current[index + terminator_len..]);
+                Some(&current[..index])
+            }
+            None => {
+                rest = None;
+                Some(current)
+            }
+        }
+    })
 }
 
 fn line_is_whitespace(line: &str) -> bool {
